@@ -96,10 +96,15 @@ def build_plan(tier, nruns=None, seed=0):
         if e[0] in ("samekind", "firstuse"):
             return G.BY_KIND[e[1]].cost >= 100
         return e[0] in ("random-heavy", "cold", "cold-order", "soak")
-    first = [e for e in plan if heavy(e)]
-    rest = [e for e in plan if not heavy(e)]
-    random.Random(424242).shuffle(first)
-    random.Random(434343).shuffle(rest)
+    if tier == "quick":
+        first = [e for e in plan if heavy(e)]
+        rest = [e for e in plan if not heavy(e)]
+    else:
+        # the thorough plan is larger than its budget on purpose: one fair shuffle,
+        # the budget decides how far it gets
+        first, rest = [], list(plan)
+    random.Random(424242 + seed).shuffle(first)
+    random.Random(434343 + seed).shuffle(rest)
     plan = first + rest
     if nruns is not None:
         plan = plan[:nruns]
